@@ -27,6 +27,8 @@ def main(tier, seed, replay):
         k.validate_profile("rel_vis", 100, known=("F17",))
         k.validate_profile("kf_f17", 1, known=("F17",))
         k.replay_behaviours("TLC_walks", mc_consts(kinds=("spawn", "despawn", "insert", "remove", "mutate", "mark", "unmark"), ents=("e1", "e2"), clients=("c1", "c2"), ops=8, ticks=6, idle=3, cframes=8), 150, depth=80)
+        # small scope, exhaustively, on the real apps: every settled state of the instance, shortest behaviour each
+        k.replay_behaviours("EXH_Mut", mc_consts(kinds=("spawn", "insert", "mutate", "remove"), ops=3, ticks=2, idle=1, cframes=0), 0, invariants=inv)
         k.replay_behaviours("TLC_walks_rel", mc_consts(comps=("A",), kinds=("spawn", "despawn", "relate", "unrelate", "mutate"), ents=("e1", "e2"), clients=("c1", "c2"), ops=8, ticks=6, idle=3, cframes=8), 100, depth=80, known=("F17",))
     else:
         k.model_check("MC_Mut", mc_consts(ops=4, ticks=3, idle=2, cframes=3), inv, timeout=3000)
@@ -57,6 +59,9 @@ def main(tier, seed, replay):
         k.validate_profile("rel_vis", 1500, known=("F17",))
         k.validate_profile("kf_f17", 1, known=("F17",))
         k.replay_behaviours("TLC_walks_rel", mc_consts(ents=("e1", "e2", "e3"), clients=("c1", "c2"), comps=("A",), kinds=("spawn", "despawn", "relate", "unrelate", "mutate", "insert"), ops=8, ticks=6, idle=3, cframes=8), 300, depth=80, known=("F17",))
+        k.replay_behaviours("EXH_Mut", mc_consts(kinds=("spawn", "insert", "mutate", "remove"), ops=4, ticks=2, idle=1, cframes=0), 0, invariants=inv, timeout=3000)
+        k.replay_behaviours("EXH_Mut_c1", mc_consts(kinds=("spawn", "insert", "mutate", "remove"), ops=3, ticks=2, idle=1, cframes=1), 0, invariants=inv, timeout=3000)
+        k.replay_behaviours("EXH_Rel", mc_consts(ops=4, **dict(REL, cframes=0)), 0, invariants=inv, timeout=3000)
         k.replay_behaviours("TLC_walks", mc_consts(ents=("e1", "e2"), clients=("c1", "c2"), kinds=("spawn", "despawn", "insert", "remove", "mutate", "mark", "unmark"), ops=8, ticks=6, idle=3, cframes=8), 400, depth=80)
     k.selftest(tr)
     return k.finish(assumptions=[
